@@ -28,6 +28,9 @@ pub struct StoreCfg {
     pub n_red: u32,
     pub n_mw: u32,
     pub name: String,
+    /// 0: StoreBuilder; 1: StoreImpl::new_with_name / new_with_reducer (+ add_reducer/add_middleware);
+    /// 2: StoreImpl::new (+ add_reducer/add_middleware). 1 and 2 only with default capacity and policy.
+    pub ctor: u8,
 }
 
 pub const SK_DIRECT: u8 = 0;
@@ -97,6 +100,27 @@ impl Drop for Out<'_> {
 }
 
 pub fn build_store(ctx: &Arc<Ctx>, s: u8, cfg: &StoreCfg) -> Result<Arc<RStore>, StoreError> {
+    if cfg.ctor != 0 && cfg.cap == DEFAULT_CAPACITY && cfg.policy == POL_BLOCK {
+        // the convenience constructors: defaults for capacity and policy, components added afterwards
+        let red = |i: u32| -> Box<dyn Reducer<St, Act> + Send + Sync> { Box::new(ScriptedReducer { ctx: ctx.clone(), store: s, idx: i }) };
+        let st = if cfg.ctor == 1 && cfg.n_red >= 1 {
+            if cfg.name == DEFAULT_STORE_NAME {
+                StoreImpl::new_with_reducer(St::initial(s), red(0))
+            } else {
+                StoreImpl::new_with_name(St::initial(s), red(0), cfg.name.clone())?
+            }
+        } else {
+            StoreImpl::new(St::initial(s))
+        };
+        let first = if cfg.ctor == 1 && cfg.n_red >= 1 { 1 } else { 0 };
+        for i in first..cfg.n_red {
+            StoreImpl::add_reducer(&st, red(i));
+        }
+        for i in 0..cfg.n_mw {
+            StoreImpl::add_middleware(&st, Arc::new(ScriptedMw { ctx: ctx.clone(), store: s, idx: i }));
+        }
+        return Ok(st);
+    }
     let mut b = StoreBuilder::new(St::initial(s))
         .with_name(cfg.name.clone())
         .with_capacity(cfg.cap)
@@ -259,10 +283,12 @@ impl W {
         let _o = Out::new(self.log());
         let st = &self.stores[s as usize];
         self.ctx.ev(K::AddInv, s, 0, id, 0, 0, REG_SUB);
-        let sn = if default_api {
-            StoreImpl::subscribed(st, sub)
-        } else {
-            StoreImpl::subscribed_with(st, cap, policy(pol), sub)
+        let via_trait = id % 3 == 1;
+        let sn = match (default_api, via_trait) {
+            (true, false) => StoreImpl::subscribed(st, sub),
+            (true, true) => <RStore as rs_store::Store<St, Act>>::subscribed(st, sub),
+            (false, false) => StoreImpl::subscribed_with(st, cap, policy(pol), sub),
+            (false, true) => <RStore as rs_store::Store<St, Act>>::subscribed_with(st, cap, policy(pol), sub),
         }
         .expect("subscribed_with failed");
         self.ctx.ev(K::AddRet, s, 0, id, 0, 0, REG_SUB);
